@@ -31,6 +31,9 @@ STYLES = ("rest", "google", "numpydoc")
 PUNCT_DOCS = ["the key: value pairs kept as they are", "first, second and third axis", "width; height comes next", "rows - columns are inferred",
               "scale (in pixels) of the image", "the 'quoted' label text", "ratio a/b of the sides", "see http://host/x for details", "weights, biases, and so on",
               "step size, i.e. the increment", "one of: fast, slow", "name -> index mapping", "x = y + z at most"]
+# descriptions that mention, as prose, the section keywords of the docstring styles
+KEYWORD_DOCS = ["on failure it e.g. Raises: nothing", "what the function Returns: see below", "all of the Args: are checked", "the Parameters of the model", "the role :param is not used here",
+                "extra Kwargs: none"]
 
 
 def gen_case(r):
@@ -56,6 +59,8 @@ def gen_case(r):
     for n, p in list(ir["params"].items()) + (list(ir["returns"].items()) if ir.get("returns") else []):
         if r.random() < 0.15 and "doc" in p:
             p["doc"] = r.choice(PUNCT_DOCS)
+        elif r.random() < 0.04 and "doc" in p:
+            p["doc"] = r.choice(KEYWORD_DOCS)
     # parameters / return entries without a description (type only)
     for n, p in list(ir["params"].items()) + (list(ir["returns"].items()) if ir.get("returns") else []):
         if r.random() < 0.12 and p.get("typ"):
@@ -141,6 +146,19 @@ def compare(chk, case, r):
             def __getattr__(self, k):
                 return getattr(self.inner, k)
         chk = _MarkedW(chk)
+    kw_doc = next((k for k in ("Raises:", "Returns:", "Args:", "Kwargs:", "Parameters", ":param") for _, a in (list(src["params"]) + ([("r", src["returns"])] if src["returns"] else []))
+                   if a["doc"] and k in a["doc"]), None)
+    if kw_doc and not quote_default:
+        class _MarkedK:
+            def __init__(self, inner):
+                self.inner = inner
+
+            def failure(self, sig, what, replay):
+                return self.inner.failure({**sig, "keyword_in_doc": kw_doc}, what, replay)
+
+            def __getattr__(self, k):
+                return getattr(self.inner, k)
+        chk = _MarkedK(chk)
     if quote_default:
         class _Marked:
             def __init__(self, inner):
